@@ -11,7 +11,7 @@ class Prop:
     PROPS_FILES = ['props/C09.v', 'props/C09node.v']
     SUITES = [SequencerC09(),
               NodeSuite(evals={'mismatches': 'mismatches', 'known:early-final-on-consistence-exit': 'known_c09_early_final'},
-                        quick=(300, 60), thorough=(8000, 300))]
+                        quick=(300, 60), thorough=(3000, 150))]
     RULE = ('closed-loop generated histories on the real Starter + Stopper (1-4 applications x 1-6 processes, start/stop sequences 0..4 at both levels, wait_exit / required / starting_failure_strategy random, startsecs / stopwaitsecs in {0,1,5,6,60}, expected loads making some placements impossible): scripted process behaviours (normal, slow, BACKOFF k times then FATAL or RUNNING, early exit expected / unexpected, never answering, stuck STARTING / STOPPING, immediate FATAL), each event dropped with probability 0 / 0.1 / 0.3, random interleaving with instance ticks, periodic checks, user requests (start/stop/restart application and process, start/stop applications, abort) and loss / return of instances (context part and commander part separated by an optional check); 1 case of 5 adds hostile events. A case is non-trivial when its rules hold at least two sequence groups and the history holds a forced state, an instance loss or a FATAL / EXITED event; distinct by the emitted request trace and length')
     ASSUMPTIONS = ['DistributionRules.ALL_INSTANCES only (ApplicationStartJobs.before is the identity); placement '
                    '(get_supvisors_instance) and the iteration order of the Python set running_identifiers are oracle '
